@@ -30,7 +30,7 @@ def gates(tier):
         "min_decided": {"(cfg @ fst)(ys)": 1500 * k, "(fst @ cfg)(xs)": 800 * k, "(cfg @ xs).treesum()": 800 * k,
                         "cfg.truncate_length(n)(xs)": 800 * k, "(cfg @ acceptor)(xs)": 800 * k},
         "shapes": {c: 3 * k for c in ["eps_rule", "recursive", "eps_in", "eps_out", "eps:eps", "fst_cyclic", "fst_multi_initial",
-                                      "fst_multi_final", "sr:Q", "sr:Boolean", "sr:Real", "sr:MaxTimes", "nullable_start"]},
+                                      "fst_multi_final", "sr:Q", "sr:Boolean", "sr:Real", "sr:MaxTimes", "nullable_start", "constructor-freshness"]},
         "min_hashseeds": 2,
     }
 
@@ -137,6 +137,15 @@ def run_case(case, ctx):
                 if ok:
                     ctx.check(APIS[1], same(v, w), "fst@cfg/value", c2, {"ys": list(ys), "have": v, "want": lib.want_value(R, w)})
         # --- cfg @ string
+        # a user-extended string machine must not leak into later string compositions (constructor results are fresh)
+        from genlm.grammar import FST as _FST
+
+        if XS[-1]:
+            okf, f1 = ctx.call(APIS[2], case, _FST.from_string, tuple(XS[-1]), cfg.R)
+            if okf:
+                ctx.call(APIS[2], case, f1.add_arc, tuple(XS[-1]), (XS[-1][0], XS[-1][0]), ("extended",), cfg.R.one)
+                ctx.call(APIS[2], case, f1.add_F, ("extended",), cfg.R.one)
+                ctx.shape["constructor-freshness"] += 1
         for xs in XS:
             c2 = dict(case, xs=list(xs))
             w = O.weight(xs)
